@@ -126,7 +126,7 @@ class MatrixOp(diff.DiffOperator, operator.CombinableOperator):
 
         # every pair for which a second-order array was formed is a pair of the combined operator
         order2 = order2 | set(d2mats)
-        return MatrixOp(
+        new = MatrixOp(
             mats[0],
             mats[1],
             dmats=dmats,
@@ -135,6 +135,9 @@ class MatrixOp(diff.DiffOperator, operator.CombinableOperator):
             order2=order2,
             **kwargs,
         )
+        # cross derivatives with variables carried by the state are formed if either operand asked for them
+        new.auto_cross_derivatives = op1.auto_cross_derivatives or op2.auto_cross_derivatives
+        return new
 
 
 # functions
